@@ -222,7 +222,7 @@ def run_pf(prog, d, timeout=20, expect_len=0):
         f.write(mg.prog_text(prog))
     b = _b()
     r, truncated = run_limited([b.parse_file, "-E"] + ["-D" + x for x in mg.prog_defs(prog)] + [p], timeout,
-                               max_out=65536 + 40 * expect_len, cwd=d)
+                               max_out=4096 + 32 * expect_len, cwd=d)
     o = Obs()
     o.r = r
     o.tokens = tokenize(r.out)
@@ -562,7 +562,7 @@ def _analyse(res, prog, d, verdict, o, expected):
             continue
         done += 1
         _e, f0 = _ref(sub)
-        mz = Minimizer(d, v, f0 or (), budget=60 if v == "died" else 260)
+        mz = Minimizer(d, v, f0 or (), budget=40 if v == "died" else 260)
         if not mz.fails(sub):
             # not reproducible in isolation (should not happen)
             res.count("unreproducible", 1)
@@ -585,7 +585,9 @@ def _analyse(res, prog, d, verdict, o, expected):
             res.count("witness_not_confirmed", 1)
             continue
         if v2 == "died":
-            key = "died:%s@%s:%s" % (o2.r.how(), "/".join(o2.r.frames(2)) or "?", signature(feats))
+            how = o2.r.how()
+            where = "" if "stack-overflow" in how else "@" + ("/".join(o2.r.frames(2)) or "?")
+            key = "died:%s%s:%s" % (how, where, signature(feats))
         elif v2 == "error-exit":
             key = "error-exit:" + signature(feats)
         elif v2 == "runaway":
